@@ -4,8 +4,8 @@
    labelled definitions of Model/C14_BeforeFix.v ("as coded before the fix"). *)
 From Coq Require Import ZArith QArith Qcanon List Lia.
 From QV.Core Require Import OF QcOF.
-From QV.Model Require Import Multinomial C14_DataGen C14_Streams C14_BeforeFix.
-From QV.Proofs Require Import C14_DataGen C14_Streams C14_BeforeFix.
+From QV.Model Require Import Multinomial C14_DataGen C14_Streams C14_BeforeFix C14_ExpHist.
+From QV.Proofs Require Import C14_DataGen C14_Streams C14_BeforeFix C14_ExpHist.
 Import ListNotations.
 
 (* ---------------------------------------------------------------- inversion sampling (_random_number_to_data) *)
@@ -277,6 +277,69 @@ Theorem C14_reset_seed_zero_before_fix_refuted :
 Proof. exists 1%Z, 2%Z, (CTomoEmpiDists 2 5%Z). exact reset_seed_zero_ignored_before_fix. Qed.
 Print Assumptions C14_reset_seed_zero_before_fix_refuted.
 
+(* ---------------------------------------------------------------- Experiment objects used over a history *)
+Section ExpHist.
+Context {G V : Type} (draw : G -> req -> V * G) (mkgen gseed : Z -> G).
+
+(* the value of a seeded Experiment.generate_* call: the object's CURRENT lists and schedules, the circuit every schedule
+   denotes NOW, and int_seed_output (arguments and seed only) — nothing else of the world enters *)
+Theorem C14_experiment_seeded_call_value : forall (o : nat) (e : ecall) (z : Z) (w : @xworld G),
+  fst (xstep draw mkgen gseed (XCall o e (SInt z)) w) =
+  XOut (conts w o) (circuits (conts w o)) (int_seed_output draw mkgen (to_call (conts w o) e) z).
+Proof. exact (xcall_int_seed_value draw mkgen gseed). Qed.
+
+(* for ALL histories (generate_* / calc_prob_dist calls, in-place replacement of list elements, whole-list and schedule
+   assignment, copy(), reset_seed_data, np.random.seed, unrelated draws; on this or other objects): two objects whose
+   current lists and schedules agree return the same value for the same seeded call *)
+Theorem C14_experiment_seeded_call_function_of_current_contents :
+  forall (hs1 hs2 : list xhop) (o1 o2 : nat) (e : ecall) (z : Z) (w1 w2 : @xworld G),
+  conts (snd (xexec draw mkgen gseed hs1 w1)) o1 = conts (snd (xexec draw mkgen gseed hs2 w2)) o2 ->
+  fst (xstep draw mkgen gseed (XCall o1 e (SInt z)) (snd (xexec draw mkgen gseed hs1 w1))) =
+  fst (xstep draw mkgen gseed (XCall o2 e (SInt z)) (snd (xexec draw mkgen gseed hs2 w2))).
+Proof. exact (xcall_int_seed_history_independent draw mkgen gseed). Qed.
+
+(* in particular it equals the value returned by a FRESH Experiment built from the object's current lists *)
+Theorem C14_experiment_seeded_call_equals_fresh_experiment :
+  forall (o : nat) (e : ecall) (z : Z) (sd : option Z) (w w' : @xworld G),
+  scheds_err (conts w o) (e_sched (conts w o)) = None ->
+  exists o', fst (xstep draw mkgen gseed (XConstruct (conts w o) sd) w') = XObj o' /\
+             fst (xstep draw mkgen gseed (XCall o' e (SInt z)) (snd (xstep draw mkgen gseed (XConstruct (conts w o) sd) w'))) =
+             fst (xstep draw mkgen gseed (XCall o e (SInt z)) w).
+Proof. exact (xcall_equals_fresh_experiment draw mkgen gseed). Qed.
+
+(* `experiment.<list k>[i] = e` takes effect: entry i of that list of THAT object is e afterwards, everything else (other
+   entries, schedules, other objects - copies included -, all random state) is unchanged *)
+Theorem C14_experiment_in_place_replacement : forall (o k i e : nat) (w : @xworld G),
+  (k < 4)%nat -> (i < length (elist k (conts w o)))%nat ->
+  let w' := snd (xstep draw mkgen gseed (XSetItem o k i e) w) in
+  fst (xstep draw mkgen gseed (XSetItem o k i e) w) = XUnit /\ base w' = base w /\
+  nth_error (elist k (conts w' o)) i = Some e /\
+  (forall j, j <> i -> nth_error (elist k (conts w' o)) j = nth_error (elist k (conts w o)) j) /\
+  e_sched (conts w' o) = e_sched (conts w o) /\
+  (forall o', o' <> o -> conts w' o' = conts w o').
+Proof. exact (set_item_contents draw mkgen gseed). Qed.
+
+(* copy(): a new object with the same contents; the original and every other object keep theirs *)
+Theorem C14_experiment_copy_contents : forall (o : nat) (w : @xworld G),
+  scheds_err (conts w o) (e_sched (conts w o)) = None ->
+  exists o', fst (xstep draw mkgen gseed (XCopy o) w) = XObj o' /\ o' = nobj (base w) /\
+             conts (snd (xstep draw mkgen gseed (XCopy o) w)) o' = conts w o /\
+             (forall o'', o'' <> o' -> conts (snd (xstep draw mkgen gseed (XCopy o) w)) o'' = conts w o'').
+Proof. exact (copy_contents draw mkgen gseed). Qed.
+End ExpHist.
+Print Assumptions C14_experiment_seeded_call_value.
+Print Assumptions C14_experiment_seeded_call_function_of_current_contents.
+Print Assumptions C14_experiment_seeded_call_equals_fresh_experiment.
+Print Assumptions C14_experiment_in_place_replacement.
+Print Assumptions C14_experiment_copy_contents.
+
+(* the circuit a schedule denotes is read from the CURRENT lists: position j is the element its j-th item (k, i) refers to now *)
+Theorem C14_circuit_reads_current_lists : forall (c : econt) (s : nat) (items : list (nat * nat)) (r : circ) (j k i : nat),
+  nth_error (e_sched c) s = Some items -> circuit c s = Some r -> nth_error items j = Some (k, i) ->
+  exists e, nth_error (elist k c) i = Some e /\ nth_error r j = Some (k, e).
+Proof. exact circuit_reads_current_lists. Qed.
+Print Assumptions C14_circuit_reads_current_lists.
+
 (* ---------------------------------------------------------------- non-vacuity *)
 Local Open Scope Qc_scope.
 Definition q (a : Z) (b : positive) : Qc := Q2Qc (a # b).
@@ -304,6 +367,18 @@ Example C14_example_empi_seq :
   unq (empi_seq Qc_OF 2 [1;1;1;0;0;1;1;1;0;1;1;1;1;1;0;0;1;1;0;1]%Z [5;10;20]%Z) =
   Some [(5%Z, [2#5; 3#5]%Q); (10%Z, [3#10; 7#10]%Q); (20%Z, [3#10; 7#10]%Q)].
 Proof. vm_compute. reflexivity. Qed.
+
+(* Experiment history on the free generator: states [7], povms [3;4], schedules [[state 0; povm 0]; [state 0; povm 1]]; generate, then
+   experiment.states[0] = 9, then the same seeded call: the circuit table names element 9, the draws are the same named draws *)
+Definition ex_cont : econt := {| e_states := [7%nat]; e_povms := [3%nat; 4%nat]; e_gates := []; e_mps := [];
+                                 e_sched := [[(0, 0); (1, 0)]; [(0, 0); (1, 1)]]%nat |}.
+Example C14_example_experiment_history :
+  map (fun r => match r with XOut _ t _ => t | _ => [] end)
+      (fst (xexec fdraw fmkgen fgseed [XConstruct ex_cont None; XCall 0 (EData 1 5%Z) (SInt 11%Z); XSetItem 0 0 0 9;
+                                       XCall 0 (EData 1 5%Z) (SInt 11%Z)] {| base := fworld0; conts := fun _ => econt0 |}))
+  = [[]; [Some [(0, 7); (1, 3)]; Some [(0, 7); (1, 4)]]; []; [Some [(0, 9); (1, 3)]; Some [(0, 9); (1, 4)]]]%nat
+  /\ scheds_err ex_cont (e_sched ex_cont) = None.
+Proof. vm_compute. split; reflexivity. Qed.
 
 (* stream theorems are non-vacuous: on the free generator a QST-like object with 3 schedules, sample sizes [5;10], int seed 7:
    the row for n=5 holds draws 0,2,4 and the row for n=10 draws 1,3,5 of the fresh generator of seed 7 (draws are made schedule-major, the output is K x S) *)
